@@ -1,3 +1,253 @@
-import Restic.Model.PackerGen
+import Restic.Proofs.C44_Spec
+/-!
+# C44 — every saved blob ends up in exactly one uploaded, indexed pack
+
+Theorems about `Restic.Model.Packer` (transcription of `packerManager.SaveBlob / pickPacker /
+forgetPacker / mergePackers / Flush` and the uploader pipeline), for **all** histories: every list of
+`SaveBlob` calls (any blob sizes, any interleaving of concurrent savers — each call is atomic under
+`r.pm`), every value of the random packer choice (oracle `idx`), any number of packers and any
+pack size > 0. The pack layout constants are the regenerated `Restic.Gen` values (`genCfg`).
+
+Part 1: one packer manager (`run`).  Part 2: the whole upload session (`Sess.run`).
+-/
 namespace Restic.Props.C44
+open Restic.Model.Packer Restic.Proofs.C44
+
+/-! ## Part 1: one packer manager -/
+
+structure RunInv (c : Cfg) (ps n : Nat) (r : Run) : Prop where
+  inv : PMInv c r.pm
+  psz : r.pm.packSize = ps
+  len : r.pm.slots.length = n
+  cnt : ∀ a, cnt a (packers r.pm) = r.accepted.count a
+
+theorem saveBlob_len (c : Cfg) (pm : PM) (b : Blob) (idx : Nat) :
+    (pm.saveBlob c b idx).1.slots.length = pm.slots.length := by
+  cases hp : pm.pickPacker b.len idx with
+  | none => simp [PM.saveBlob, hp]
+  | some pk =>
+    obtain ⟨p, home, pm1⟩ := pk
+    have h1 : pm1.slots.length = pm.slots.length := by
+      unfold PM.pickPacker at hp
+      split at hp
+      · cases hp; rfl
+      · split at hp
+        · cases hp
+        · cases hp; rfl
+        · cases hp; simp
+    rw [saveBlob_of_pick hp]
+    split
+    · cases home <;> simp [h1]
+    · simp [forget, h1]
+
+theorem init_inv (c : Cfg) (ps n : Nat) : RunInv c ps n ⟨PM.init ps n, [], 0⟩ := by
+  have hsl : slotPackers (PM.init ps n) = [] := by
+    simp only [slotPackers, PM.init]
+    induction n with
+    | zero => rfl
+    | succ k ih => simp [List.replicate_succ]
+  refine ⟨⟨?_, ?_, ?_, ?_⟩, rfl, by simp [PM.init], fun a => ?_⟩
+  · rw [hsl]; simp
+  · simp [PM.init]
+  · simp only [packers, hsl]; simp [PM.init]
+  · simp only [packers, hsl]; simp [PM.init]
+  · simp only [packers, hsl]; simp [PM.init, cnt_nil]
+
+theorem runOp_inv {c : Cfg} (hc : CfgOK c) {ps n : Nat} (hps : 0 < ps) {r : Run} (h : RunInv c ps n r) (op : Op) :
+    RunInv c ps n (runOp c r op) := by
+  cases op with
+  | flush =>
+    exact ⟨flush_inv hc h.inv, h.psz, by simp [runOp, PM.flush, h.len], fun a => by
+      simp only [runOp]; rw [flush_cnt hc h.inv a]; exact h.cnt a⟩
+  | save b idx =>
+    have hcases := saveBlob_cases h.inv (c := c) b idx
+    have hlen := saveBlob_len c r.pm b idx
+    simp only [runOp]
+    rcases hcases with ⟨hpan, heq⟩ | heff
+    · -- index out of range: nothing changes
+      rcases hres : r.pm.saveBlob c b idx with ⟨pm', out⟩
+      rw [hres] at hpan heq
+      simp only at hpan heq
+      subst hpan heq
+      exact ⟨h.inv, h.psz, h.len, h.cnt⟩
+    · rcases hres : r.pm.saveBlob c b idx with ⟨pm', out⟩
+      rw [hres] at heff hlen
+      simp only at heff hlen
+      have hinv' := heff.inv hc (h.psz ▸ hps) h.inv
+      have hps' : pm'.packSize = ps := by
+        obtain ⟨_, _, _, _, _, _, hp, _⟩ := heff.ex; rw [hp, h.psz]
+      have hout : ∃ sz q, out = .ok sz q := by
+        obtain ⟨_, _, _, _, _, _, _, _, hc⟩ := heff.ex
+        rcases hc with ⟨_, _, _, _, sz, h⟩ | ⟨_, _, sz, h⟩
+        · exact ⟨sz, none, h⟩
+        · exact ⟨sz, _, h⟩
+      obtain ⟨sz, q, hout⟩ := hout
+      subst hout
+      refine ⟨hinv', hps', by rw [hlen, h.len], fun a => ?_⟩
+      simp only
+      rw [heff.count_eq a, h.cnt a, List.count_cons]
+      simp
+
+theorem foldl_inv {c : Cfg} (hc : CfgOK c) {ps n : Nat} (hps : 0 < ps) :
+    ∀ (ops : List Op) (r : Run), RunInv c ps n r → RunInv c ps n (ops.foldl (runOp c) r)
+  | [], _, h => h
+  | op :: ops, r, h => foldl_inv hc hps ops _ (runOp_inv hc hps h op)
+
+theorem run_inv {c : Cfg} (hc : CfgOK c) {ps : Nat} (hps : 0 < ps) (n : Nat) (ops : List Op) :
+    RunInv c ps n (run c ps n ops) :=
+  foldl_inv hc hps ops _ (init_inv c ps n)
+
+/-- **header_bound** (full strength, after the fix of F9): whatever the history, every packer handed
+    to the uploader has a header of at most `MaxHeaderSize` bytes, so `Finalize`'s self check passes. -/
+theorem header_bound (ps : Nat) (hps : 0 < ps) (n : Nat) (ops : List Op) :
+    ∀ q ∈ (run genCfg ps n ops).pm.queued,
+      q.headerBytes genCfg ≤ Restic.Gen.pack_MaxHeaderSize ∧ q.finalizeOK genCfg = true := by
+  intro q hq
+  have hg := (run_inv genCfg_ok hps n ops).inv.goods q hq
+  exact ⟨hg.header_le genCfg_ok, hg.finalizeOK genCfg_ok⟩
+
+/-- **no_add_after_full**: when the last blob of a queued packer was added, the packer was below the
+    pack size and its header was not full; hence (second part) the same holds for every earlier state. -/
+theorem no_add_after_full (ps : Nat) (hps : 0 < ps) (n : Nat) (ops : List Op) :
+    ∀ q ∈ (run genCfg ps n ops).pm.queued,
+      noAddAfterFull genCfg ps q.blobs = true ∧
+      ∀ s, s <:+ q.blobs → s ≠ q.blobs → sumLen s < ps ∧ hdrFull genCfg s.length = false := by
+  intro q hq
+  have hr := run_inv genCfg_ok hps n ops
+  have hg := hr.inv.goods q hq
+  rw [hr.psz] at hg
+  exact ⟨hg.2.2, (noAddAfterFull_suffix hg.2.2).2⟩
+
+/-- open packers never hold a full pack: a packer that stays in a slot is below the pack size and
+    its header is not full -/
+theorem open_not_full (ps : Nat) (hps : 0 < ps) (n : Nat) (ops : List Op) :
+    ∀ p ∈ slotPackers (run genCfg ps n ops).pm, p.bytes < ps ∧ p.headerFull genCfg = false := by
+  intro p hp
+  have hr := run_inv genCfg_ok hps n ops
+  have ho := hr.inv.opens p hp
+  rw [hr.psz] at ho
+  exact ⟨ho.2.1, ho.2.2⟩
+
+/-- each packer is handed to the uploader at most once, and open packers are never in the queue -/
+theorem queued_once (ps : Nat) (hps : 0 < ps) (n : Nat) (ops : List Op) :
+    ((slotPackers (run genCfg ps n ops).pm ++ (run genCfg ps n ops).pm.queued).map (·.serial)).Nodup :=
+  (run_inv genCfg_ok hps n ops).inv.nodup
+
+theorem perm_of_cnt {qs : List Packer} {acc : List Blob} (h : ∀ a, cnt a qs = acc.count a) :
+    (qs.flatMap (·.blobs)).Perm acc := by
+  rw [List.perm_iff_count]
+  intro a
+  rw [List.count_flatMap, ← h a]
+  rfl
+
+/-- **blob_in_one_pack** (manager level): at every moment the blobs accepted so far are exactly the
+    blobs sitting in open packers plus those in queued packers (as multisets: every accepted
+    occurrence is in exactly one packer) ... -/
+theorem accepted_conserved (ps : Nat) (hps : 0 < ps) (n : Nat) (ops : List Op) :
+    ((slotPackers (run genCfg ps n ops).pm ++ (run genCfg ps n ops).pm.queued).flatMap (·.blobs)).Perm
+      (run genCfg ps n ops).accepted :=
+  perm_of_cnt (run_inv genCfg_ok hps n ops).cnt
+
+/-- ... and after `Flush` no packer stays open, so every accepted blob is in exactly one packer that
+    was handed to the uploader. -/
+theorem blob_in_one_pack_pm (ps : Nat) (hps : 0 < ps) (n : Nat) (ops : List Op) :
+    let r := run genCfg ps n (ops ++ [.flush])
+    slotPackers r.pm = [] ∧ (r.pm.queued.flatMap (·.blobs)).Perm r.accepted ∧
+      (r.pm.queued.map (·.serial)).Nodup := by
+  intro r
+  have hsl : slotPackers r.pm = [] := by
+    show slotPackers (run genCfg ps n (ops ++ [.flush])).pm = []
+    simp only [run, List.foldl_append, List.foldl_cons, List.foldl_nil, runOp]
+    exact slotPackers_flush _ _
+  have h1 := accepted_conserved ps hps n (ops ++ [.flush])
+  have h2 := queued_once ps hps n (ops ++ [.flush])
+  rw [hsl] at h1 h2
+  exact ⟨hsl, by simpa using h1, by simpa using h2⟩
+
+/-- `SaveBlob` fails (index panic) only for an oracle value `randomInt` cannot return -/
+theorem saveBlob_no_panic (c : Cfg) (pm : PM) (b : Blob) (idx : Nat) (h : idx < pm.slots.length) :
+    (pm.saveBlob c b idx).2 ≠ .panic := by
+  cases hp : pm.pickPacker b.len idx with
+  | none =>
+    exfalso
+    unfold PM.pickPacker at hp
+    split at hp
+    · cases hp
+    · split at hp
+      · rename_i h'; simp at h'; omega
+      · cases hp
+      · cases hp
+  | some pk =>
+    obtain ⟨p, home, pm1⟩ := pk
+    rw [saveBlob_of_pick hp]
+    split
+    · cases home <;> simp
+    · simp
+
+def savedBlobs : List Op → List Blob
+  | [] => []
+  | .save b _ :: ops => b :: savedBlobs ops
+  | .flush :: ops => savedBlobs ops
+
+def oracleOK (n : Nat) : List Op → Prop
+  | [] => True
+  | .save _ idx :: ops => idx < n ∧ oracleOK n ops
+  | .flush :: ops => oracleOK n ops
+
+theorem accepted_all_aux {c : Cfg} {n : Nat} : ∀ (ops : List Op) (r : Run), r.pm.slots.length = n → oracleOK n ops →
+    (ops.foldl (runOp c) r).accepted = (savedBlobs ops).reverse ++ r.accepted ∧ (ops.foldl (runOp c) r).panics = r.panics
+  | [], r, _, _ => by simp [savedBlobs]
+  | .flush :: ops, r, hl, ho => by
+    simpa [savedBlobs, runOp] using accepted_all_aux (c := c) ops { r with pm := r.pm.flush c } (by simp [PM.flush, hl]) ho
+  | .save b idx :: ops, r, hl, ho => by
+    have hnp := saveBlob_no_panic c r.pm b idx (hl ▸ ho.1)
+    have hlen := saveBlob_len c r.pm b idx
+    simp only [List.foldl_cons, runOp, savedBlobs]
+    rcases hres : r.pm.saveBlob c b idx with ⟨pm', out⟩
+    rw [hres] at hnp hlen
+    cases out with
+    | panic => exact absurd rfl hnp
+    | ok sz q =>
+      have := accepted_all_aux (c := c) ops { r with pm := pm', accepted := b :: r.accepted } (by simpa [hl] using hlen) ho.2
+      simpa using this
+
+/-- every `SaveBlob` call is accepted when the oracle stays in range (`randomInt(len(r.packers))`) -/
+theorem accepted_all (c : Cfg) (ps n : Nat) (ops : List Op) (ho : oracleOK n ops) :
+    (run c ps n ops).accepted = (savedBlobs ops).reverse ∧ (run c ps n ops).panics = 0 := by
+  have := accepted_all_aux (c := c) ops ⟨PM.init ps n, [], 0⟩ (by simp [PM.init]) ho
+  simpa [run] using this
+
+theorem savedBlobs_append_flush : ∀ ops : List Op, savedBlobs (ops ++ [.flush]) = savedBlobs ops
+  | [] => rfl
+  | .save b i :: ops => by simp [savedBlobs, savedBlobs_append_flush ops]
+  | .flush :: ops => by simp [savedBlobs, savedBlobs_append_flush ops]
+
+theorem oracleOK_append_flush {n : Nat} : ∀ {ops : List Op}, oracleOK n ops → oracleOK n (ops ++ [.flush])
+  | [], _ => by simp [oracleOK]
+  | .save b i :: ops, h => by exact ⟨h.1, oracleOK_append_flush h.2⟩
+  | .flush :: ops, h => by exact oracleOK_append_flush (ops := ops) h
+
+/-- The transcription meets the executable statement evaluated by the driver: for every history of one
+    manager of type `tpe` (the dispatch of `saveAndEncrypt` only sends blobs of that type), after the
+    final `Flush`, `specOK` holds for the packers handed to the uploader. -/
+theorem run_specOK (ps : Nat) (hps : 0 < ps) (n : Nat) (tpe : BlobType) (ops : List Op)
+    (htpe : ∀ b ∈ savedBlobs ops, b.tpe = tpe) (ho : oracleOK n ops) :
+    let r := run genCfg ps n (ops ++ [.flush])
+    specOK genCfg ps tpe r.accepted r.pm.queued = true := by
+  intro r
+  obtain ⟨_, hperm, hnd⟩ := blob_in_one_pack_pm ps hps n ops
+  have hacc : r.accepted = (savedBlobs ops).reverse := by
+    have hsb := savedBlobs_append_flush ops
+    have hoo := oracleOK_append_flush ho
+    have := (accepted_all genCfg ps n (ops ++ [.flush]) hoo).1
+    rw [hsb] at this; exact this
+  simp only [specOK, Bool.and_eq_true, List.all_eq_true]
+  refine ⟨⟨⟨⟨(sameBlobs_iff _ _).mpr hperm, (distinct_iff _).mpr hnd⟩, ?_⟩, ?_⟩, ?_⟩
+  · intro p hp b hb
+    have : b ∈ r.accepted := hperm.subset (List.mem_flatMap.mpr ⟨p, hp, hb⟩)
+    rw [hacc] at this
+    simpa using htpe b (by simpa using this)
+  · intro p hp; exact (no_add_after_full ps hps n _ p hp).1
+  · intro p hp; exact (header_bound ps hps n _ p hp).2
+
 end Restic.Props.C44
